@@ -142,13 +142,27 @@ fn render_rec(r: &Record, res: &dyn Fn(StringRef) -> String) -> String {
     }
     s
 }
-fn render_set<'a>(recs: impl Iterator<Item = &'a Record>, res: &dyn Fn(StringRef) -> String) -> String {
+fn render_all<'a>(recs: impl Iterator<Item = &'a Record>, res: &dyn Fn(StringRef) -> String) -> Vec<String> {
+    recs.map(|r| render_rec(r, res)).collect()
+}
+/// digest of a whole record list
+fn set_tok(rs: &[String]) -> String {
     let mut all = String::new();
-    for r in recs {
-        all.push_str(&render_rec(r, res));
+    for r in rs {
+        all.push_str(r);
         all.push('\n');
     }
     tok(all.as_bytes())
+}
+/// short per-record token (TLC compares them index by index)
+fn tok8(r: &str) -> String {
+    tok(r.as_bytes())[..8].to_string()
+}
+fn toks8(rs: &[String]) -> Vec<String> {
+    rs.iter().map(|r| tok8(r)).collect()
+}
+fn render_set<'a>(recs: impl Iterator<Item = &'a Record>, res: &dyn Fn(StringRef) -> String) -> String {
+    set_tok(&render_all(recs, res))
 }
 fn res_str<'a>(f: impl Fn(StringRef) -> wow_cdbc::Result<&'a str> + 'a) -> impl Fn(StringRef) -> String + 'a {
     move |r| match f(r) {
@@ -268,15 +282,13 @@ fn run_case(case: &str, c: &Value, rng: &mut Rng, scratch: &Scratch) -> Vec<Valu
         bytes0.extend_from_slice(&rb);
     }
     bytes0.extend_from_slice(&block);
-    let mut all = String::new();
-    for rec in &table {
-        all.push_str(&render_src(rec, &pool));
-        all.push('\n');
-    }
-    let src_tok = tok(all.as_bytes());
+    let src_rows: Vec<String> = table.iter().map(|rec| render_src(rec, &pool)).collect();
+    let src_tok = set_tok(&src_rows);
+    let small = n <= 128; // per-index events only for small tables
+    let rtoks: Vec<String> = if small { toks8(&src_rows) } else { Vec::new() };
     let used: std::collections::HashSet<usize> =
         table.iter().flatten().flatten().filter_map(|v| if let V::Str(i) = v { Some(*i) } else { None }).collect();
-    evs.push(json!({"ev":"Build","case":case,"len":bytes0.len(),"hdr":[n, fc, rs, block.len()],"rtok":src_tok,"nstr":used.len(),"hasEmpty":used.contains(&0)}));
+    evs.push(json!({"ev":"Build","case":case,"len":bytes0.len(),"hdr":[n, fc, rs, block.len()],"rtok":src_tok,"nstr":used.len(),"hasEmpty":used.contains(&0),"rtoks":rtoks}));
 
     let mk_schema = || {
         let mut s = Schema::new("T");
@@ -308,23 +320,28 @@ fn run_case(case: &str, c: &Value, rng: &mut Rng, scratch: &Scratch) -> Vec<Valu
         return evs;
     };
     let h = *parser0.header();
-    let eager_tok = render_set(set0.records().iter(), &res_str(|r| set0.get_string(r)));
+    let eager_rows = render_all(set0.records().iter(), &res_str(|r| set0.get_string(r)));
+    let eager_tok = set_tok(&eager_rows);
     evs.push(json!({"ev":"Parse0","case":case,"res":res0,"rtok":eager_tok,
         "hdr":[clip(h.record_count), clip(h.field_count), clip(h.record_size), clip(h.string_block_size)]}));
 
     // ---- the other access paths on the same bytes ----
     let schema = mk_schema();
     let sb = Arc::new(set0.string_block().clone());
-    let cached = {
+    let cached_rows: Vec<String> = {
         let mut s2 = set0.clone();
         match guarded(|| {
             s2.enable_string_caching();
-            render_set(s2.records().iter(), &res_str(|r| s2.get_string(r)))
+            // reach every record through get_record(i)
+            (0..s2.len()).map(|i| s2.get_record(i).map(|r| render_rec(r, &res_str(|q| s2.get_string(q)))).unwrap_or_else(|| "<none>".into())).collect::<Vec<String>>()
         }) {
             Outcome::Done(t) => t,
-            _ => "panic".into(),
+            _ => vec!["panic".into()],
         }
     };
+    let cached = set_tok(&cached_rows);
+    let mut lazy_rows: Vec<String> = Vec::new();
+    let mut route_evs: Vec<Value> = Vec::new();
     let (lazy_idx, lazy_iter) = {
         let lp = LazyDbcParser::new(&bytes0, &h, Some(&schema), Arc::clone(&sb));
         let a = match guarded(|| {
@@ -332,12 +349,51 @@ fn run_case(case: &str, c: &Value, rng: &mut Rng, scratch: &Scratch) -> Vec<Valu
             for i in 0..h.record_count {
                 recs.push(lp.get_record(i)?);
             }
-            Ok::<_, wow_cdbc::Error>(render_set(recs.iter(), &res_str(|r| lp.string_block().get_string(r))))
+            Ok::<_, wow_cdbc::Error>(render_all(recs.iter(), &res_str(|r| lp.string_block().get_string(r))))
         }) {
-            Outcome::Done(Ok(t)) => t,
+            Outcome::Done(Ok(t)) => {
+                let d = set_tok(&t);
+                lazy_rows = t;
+                d
+            }
             Outcome::Done(Err(e)) => format!("err:{}", variant_name(&e)),
             _ => "panic".into(),
         };
+        // every route TLC asked for, driven through the iterator's public adaptors
+        if small {
+            for r in ga(c, "routes") {
+                let (kind, ra, rb) = (gs(r, "kind"), gi(r, "a") as usize, gi(r, "b") as usize);
+                let got = guarded(|| {
+                    let mut it = lp.record_iterator();
+                    let items: Vec<wow_cdbc::Result<Record>> = match kind {
+                        "iter" => it.collect(),
+                        "nth" => it.nth(ra).into_iter().collect(),
+                        "skip" => it.skip(ra).collect(),
+                        "step" => it.step_by(ra).collect(),
+                        "skipstep" => it.skip(ra).step_by(rb).collect(),
+                        "last" => it.last().into_iter().collect(),
+                        "nthnth" => {
+                            let x = it.nth(ra);
+                            let y = it.nth(rb);
+                            x.into_iter().chain(y).collect()
+                        }
+                        _ => tool_error(&format!("unknown route kind {kind}")),
+                    };
+                    items
+                        .iter()
+                        .map(|x| match x {
+                            Ok(rec) => tok8(&render_rec(rec, &res_str(|q| lp.string_block().get_string(q)))),
+                            Err(e) => format!("err:{}", variant_name(e)),
+                        })
+                        .collect::<Vec<String>>()
+                });
+                let got = match got {
+                    Outcome::Done(v) => v,
+                    _ => vec!["panic".to_string()],
+                };
+                route_evs.push(json!({"kind":kind,"a":ra,"b":rb,"got":got}));
+            }
+        }
         let b = match guarded(|| {
             let recs: Result<Vec<Record>, _> = lp.record_iterator().collect();
             recs.map(|recs| render_set(recs.iter(), &res_str(|r| lp.string_block().get_string(r))))
@@ -348,6 +404,7 @@ fn run_case(case: &str, c: &Value, rng: &mut Rng, scratch: &Scratch) -> Vec<Valu
         };
         (a, b)
     };
+    let mut mmap_rows: Vec<String> = Vec::new();
     let mmap_tok = {
         let path = scratch.file(&format!("{}.dbc", case.replace(':', "_")));
         std::fs::write(&path, &bytes0).unwrap_or_else(|e| tool_error(&format!("write scratch: {e}")));
@@ -355,26 +412,41 @@ fn run_case(case: &str, c: &Value, rng: &mut Rng, scratch: &Scratch) -> Vec<Valu
             let mm = MmapDbcFile::open(&path)?;
             let set = mm.parser_with_schema(mk_schema())?.parse_records()?;
             let sbm = mm.string_block()?;
-            let t = render_set(set.records().iter(), &res_str(|r| sbm.get_string(r)));
+            let t: Vec<String> = (0..set.len()).map(|i| set.get_record(i).map(|r| render_rec(r, &res_str(|q| sbm.get_string(q)))).unwrap_or_else(|| "<none>".into())).collect();
             Ok::<_, wow_cdbc::Error>(t)
         }) {
-            Outcome::Done(Ok(t)) => t,
+            Outcome::Done(Ok(t)) => {
+                let d = set_tok(&t);
+                mmap_rows = t;
+                d
+            }
             Outcome::Done(Err(e)) => format!("err:{}", variant_name(&e)),
             _ => "panic".into(),
         };
         let _ = std::fs::remove_file(&path);
         r
     };
+    let mut par_rows: Vec<String> = Vec::new();
     let par_tok = match guarded(|| {
         let set = wow_cdbc::parse_records_parallel(&bytes0, &h, Some(&schema), Arc::clone(&sb))?;
-        let t = render_set(set.records().iter(), &res_str(|r| set.get_string(r)));
+        let t: Vec<String> = (0..set.len()).map(|i| set.get_record(i).map(|r| render_rec(r, &res_str(|q| set.get_string(q)))).unwrap_or_else(|| "<none>".into())).collect();
         Ok::<_, wow_cdbc::Error>(t)
     }) {
-        Outcome::Done(Ok(t)) => t,
+        Outcome::Done(Ok(t)) => {
+            let d = set_tok(&t);
+            par_rows = t;
+            d
+        }
         Outcome::Done(Err(e)) => format!("err:{}", variant_name(&e)),
         _ => "panic".into(),
     };
     evs.push(json!({"ev":"Paths","case":case,"eager":eager_tok,"cached":cached,"lazyIdx":lazy_idx,"lazyIter":lazy_iter,"mmap":mmap_tok,"par":par_tok}));
+    if small {
+        // record i as every path returns it through its by-index entry point, and the iterator routes
+        evs.push(json!({"ev":"Gets","case":case,"eager":toks8(&eager_rows),"cached":toks8(&cached_rows),"lazy":toks8(&lazy_rows),
+            "mmap":toks8(&mmap_rows),"par":toks8(&par_rows)}));
+        evs.push(json!({"ev":"Routes","case":case,"routes":route_evs}));
+    }
 
     // ---- key lookups ----
     if key > 0 {
